@@ -512,6 +512,8 @@ func (x *SExec) apply(i int, op SOp) *Fail {
 		return x.doIORace(i, op)
 	case "addresize":
 		return x.doAddResize(i, op)
+	case "addwrite":
+		return x.doAddWrite(i, op)
 	case "ctldelsnap":
 		return x.doCtlDeleteSnapshot(i, op)
 	case "ctlrevert":
@@ -2364,6 +2366,98 @@ func (x *SExec) doAddResize(i int, op SOp) *Fail {
 				got = r.Info().Size
 			}
 			return sfail("ctlresize|joining-replica-size", fmt.Sprintf("the volume was grown to %d while n%d was being added; n%d is attached with size %d", want, n, n, got), "C16")
+		}
+	}
+	return nil
+}
+
+// doAddWrite: a write is issued while an add request is being carried out (the
+// joining replica is parked inside the snapshot request the controller sends
+// it). Whatever the order in which the two take effect, every replica that is
+// in service when both have returned holds the acknowledged write.
+// op.Node = the joining replica, op.Off/Seed = the write (one block).
+func (x *SExec) doAddWrite(i int, op SOp) *Fail {
+	st := x.St
+	n := op.Node % len(st.Nodes)
+	if x.woNode() >= 0 || x.listed() >= x.P.RF || x.listed() == 0 || x.Mode[n] != "" || st.Nodes[n].S.Replica() != nil || x.readOnly() {
+		return nil
+	}
+	for j, m := range x.Mode {
+		if m == types.ERR || (m == "" && st.Mode(j) != "") {
+			return nil
+		}
+	}
+	total := x.Live.size() / Sec
+	off := op.Off / 8 * 8 % total
+	data := payload(i*100+55, 1+op.Seed%200, off*Sec, Blk)
+	before := make([]int, len(st.Nodes))
+	for j, nd := range st.Nodes {
+		before[j] = len(nd.LogCopy())
+	}
+	hold := st.Nodes[n].HoldRest("snapshot", 300*time.Millisecond)
+	res := make(chan error, 1)
+	go func() { res <- st.C.AddReplica(st.Nodes[n].Addr) }()
+	parked := false
+	select {
+	case <-hold.Arrived:
+		parked = true
+	case err := <-res:
+		res <- err
+	case <-time.After(3 * time.Second):
+	}
+	wn, werr := st.C.WriteAt(data, off*Sec)
+	var aerr error
+	select {
+	case aerr = <-res:
+	case <-time.After(60 * time.Second):
+		return sfail("addwrite|hangs", "AddReplica did not return within 60 s", "C18", "C14")
+	}
+	st.Nodes[n].ClearFaults()
+	ack := werr == nil && wn == len(data)
+	reached := map[int]bool{}
+	for j, nd := range st.Nodes {
+		for _, e := range nd.LogCopy()[before[j]:] {
+			if e.Kind == "write" && e.Off == off*Sec && e.Applied {
+				reached[j] = true
+			}
+		}
+	}
+	if m := st.Mode(n); m == types.WO && x.Mode[n] == "" {
+		x.Mode[n] = types.WO
+		x.AttAck[n] = len(x.Acked)
+		x.AttLog[n] = before[n]
+		delete(x.subBlockWO, n)
+		delete(x.Frozen, n)
+		x.Labels["add:ok"]++
+	}
+	x.tracef("addwrite n%d (parked in its snapshot request=%v): add -> %v, write off=%d -> n=%d err=%v, applied by %v", n, parked, aerr, off*Sec, wn, werr, keys(reached))
+	if parked {
+		x.Labels["addwrite:write-during-add"]++
+	}
+	if !ack {
+		if len(reached) > 0 {
+			for sct := off; sct < off+8; sct++ {
+				x.Live.Indet[sct] = true
+			}
+		}
+		if len(reached) > len(x.writers())/2 {
+			return sfail("write|majority-but-failed", fmt.Sprintf("a fault-free write issued during an add was applied by %v but reported failed: n=%d err=%v", keys(reached), wn, werr), "C05", "C02")
+		}
+		return nil
+	}
+	x.Live.Write(off*Sec, data)
+	W := x.writers()
+	arw := 0
+	for j := range reached {
+		if x.Mode[j] == types.RW {
+			arw++
+		}
+	}
+	x.Acked = append(x.Acked, ackedWrite{Off: off * Sec, Len: Blk, Sum: sum64(data), W: W, A: keys(reached), ARW: arw, Unordered: true})
+	x.Labels["write:acked"]++
+	for _, j := range W {
+		if !reached[j] {
+			return sfail("write|acknowledged-but-missing-on-in-service-replica", fmt.Sprintf("the write was acknowledged while n%d was being added; n%d is in service (%s) and never received it (applied by %v)", n, j, x.Mode[j], keys(reached)), "C02", "C07")
 		}
 	}
 	return nil
